@@ -21,8 +21,9 @@ TraceLog == ndJsonDeserialize(IOEnv.VERIF_TRACE)
 
 VARIABLES l,        \* next event
           pend,     \* calls invoked and not yet linearized: set of [op, idx] (idx: position of the inv event)
-          lind      \* calls linearized, response not yet seen: set of op numbers
-tvars == <<boxes, used, arrival, cap, limit, doomed, l, pend, lind>>
+          lind,     \* calls linearized, response not yet seen: set of op numbers
+          need      \* walks of the store under way: op number -> mailboxes that have held mail ever since the walk began
+tvars == <<boxes, used, arrival, cap, limit, doomed, l, pend, lind, need>>
 
 Ev == TraceLog[l]
 Is(a) == l <= Len(TraceLog) /\ Ev.a = a /\ l' = l + 1
@@ -33,7 +34,11 @@ SnapOK(b) == /\ Ev.serr = <<>>
              /\ Len(Ev.s) = Cardinality(Snap(b))
              /\ ToSet(Ev.s) = Snap(b)
 
-TraceInit == /\ l = 1 /\ pend = {} /\ lind = {}
+NonEmpty(b) == {m \in Mailbox : b[m] # <<>>}
+NoWalks == [o \in {} |-> {}]
+(* whatever changes the store: a walk that is under way can no longer be sure of a mailbox that is empty now *)
+Shrink(b) == [o \in DOMAIN need |-> need[o] \cap NonEmpty(b)]
+TraceInit == /\ l = 1 /\ pend = {} /\ lind = {} /\ need = NoWalks
              /\ CInit(0, 0)
 
 TrReset == /\ Is("reset")
@@ -41,17 +46,20 @@ TrReset == /\ Is("reset")
            /\ used' = [m \in Mailbox |-> {}]
            /\ arrival' = <<>>
            /\ cap' = Ev.cap /\ limit' = Ev.limit /\ doomed' = {}
-           /\ pend' = {} /\ lind' = {}
+           /\ pend' = {} /\ lind' = {} /\ need' = NoWalks
            /\ Mark
 
 (* sequential set-up *)
 TrAdd == /\ Is("add") /\ Ev.r = "ok"
          /\ Add(Ev.mb, Ev.id, Ev.meta, Ev.size)
          /\ SnapOK(boxes')
-         /\ UNCHANGED <<pend, lind, doomed>> /\ Mark
+         /\ UNCHANGED <<pend, lind, doomed, need>> /\ Mark
 
+(* a completed walk of the store (VisitMailboxes) reports which mailboxes it was shown: from its start on it is owed *)
+(* every mailbox that holds mail now and goes on holding mail until the walk returns                                *)
 TrInv == /\ Is("inv")
          /\ pend' = pend \cup {[op |-> Ev.op, idx |-> l]}
+         /\ need' = IF Ev.k = "visitdone" THEN [o \in DOMAIN need \cup {Ev.op} |-> IF o = Ev.op THEN NonEmpty(boxes) ELSE need[o]] ELSE need
          /\ UNCHANGED <<cvars, lind>> /\ Mark
 
 (* concurrent reads are compared on what the call itself returns: identity,  *)
@@ -73,20 +81,24 @@ Apply(c) ==
                            /\ (c.r = "ok" => c.msg = Lite(LatestRes(c.mb).msg))
                            /\ UNCHANGED cvars
       [] c.k = "list"   -> c.r = "ok" /\ c.msgs = Lites(ListRes(c.mb)) /\ UNCHANGED cvars
+      [] c.k = "visitdone" -> c.r = "ok" /\ UNCHANGED cvars
       [] OTHER          -> FALSE        \* e.g. "visit-error": a visit that failed is not explainable
 Lin == \E p \in pend :
           /\ Apply(TraceLog[p.idx])
           /\ pend' = pend \ {p}
           /\ lind' = lind \cup {p.op}
+          /\ need' = Shrink(boxes')
           /\ UNCHANGED l
 
 (* the size enforcer is a concurrent client of its own (C09): it evicts the  *)
 (* store-wide oldest message while the store is over its limit              *)
-Enforcer == CEvict /\ UNCHANGED <<l, pend, lind>>
+Enforcer == CEvict /\ need' = Shrink(boxes') /\ UNCHANGED <<l, pend, lind>>
 
 TrRes == /\ Is("res")
          /\ Ev.op \in lind
          /\ lind' = lind \ {Ev.op}
+         /\ (Ev.k = "visitdone") => (need[Ev.op] \subseteq ToSet(Ev.visited))
+         /\ need' = [o \in DOMAIN need \ {Ev.op} |-> need[o]]
          /\ UNCHANGED <<cvars, pend>> /\ Mark
 
 (* C16 under concurrency: the after-events the stores produced during the history ("stored"  *)
@@ -109,7 +121,7 @@ TrFinal == /\ Is("final") /\ pend = {} /\ lind = {}
            /\ AtRest                       \* nothing doomed is left, the store is within its limit
            /\ SnapOK(boxes)
            /\ ("evs" \in DOMAIN Ev) => EventsOK
-           /\ UNCHANGED <<cvars, pend, lind>> /\ Mark
+           /\ UNCHANGED <<cvars, pend, lind, need>> /\ Mark
 
 (* first touch: several clients delivered to a brand-new mailbox at the same    *)
 (* moment; every delivery that returned an id is there, no id was given twice   *)
@@ -126,9 +138,16 @@ TrBurst ==
           /\ used' = [used EXCEPT ![Ev.mb] = @ \cup {bx.msgs[i].id : i \in DOMAIN bx.msgs}]
           /\ arrival' = arrival \o [i \in DOMAIN bx.msgs |-> <<Ev.mb, bx.msgs[i].id>>]
     /\ SnapOK(boxes')
-    /\ UNCHANGED <<cap, limit, doomed, pend, lind>> /\ Mark
+    /\ UNCHANGED <<cap, limit, doomed, pend, lind, need>> /\ Mark
 
-TraceNext == TrBurst \/ TrReset \/ TrAdd \/ TrInv \/ Lin \/ Enforcer \/ TrRes \/ TrFinal
+(* a mailbox whose index is unreadable (one was damaged, a walk of the store ran into it): every operation on   *)
+(* the other mailboxes - also one in the same lock bucket - still returns, and succeeds                        *)
+TrPoison ==
+    /\ Is("poison") /\ Ev.damaged = 1
+    /\ Ev.add = "ok" /\ Ev.list = "ok" /\ Ev.purge = "ok" /\ Ev.add2 = "ok"
+    /\ UNCHANGED <<cvars, pend, lind, need>> /\ Mark
+
+TraceNext == TrPoison \/ TrBurst \/ TrReset \/ TrAdd \/ TrInv \/ Lin \/ Enforcer \/ TrRes \/ TrFinal
 TraceSpec == TraceInit /\ [][TraceNext]_tvars
 
 TraceAccepted ==
